@@ -74,6 +74,21 @@ def enum_units(tier, seed):
                          ([{"k": "if", "c": L(1), "t": [{"k": "const", "n": "k_m", "e": L(0x55), "eager": True}, db(["id", "k_m"])], "e": [db(L(0x66))]}, db(["id", "k_m"], ["id", "k_n"])], 0, 3)):
         cases.append({"rom": "low", "files": {}, "ir": [kn, {"k": "const", "n": "k_m", "e": L(0x0A), "eager": True}, org, mset, db(["id", "k_n"]), {"k": "for", "v": "k_n", "lo": L(lo), "hi": L(hi), "b": body}, db(["id", "k_n"], ["id", "k_m"]),
                                                        {"k": "data", "d": "dw", "es": [["bin", "+", ["id", "k_n"], L(0x100)]]}, {"k": "if", "c": ["id", "k_n"], "t": [db(["id", "k_n"])], "e": None}, db(L(0xEE))]})
+    # one condition text, or one .if statement of a body, evaluated several times while the name it tests is undefined at one time
+    # and defined at another (as a parameter, a loop variable, a constant set earlier in the same iteration, an exported constant):
+    # every evaluation stands for itself
+    kw = lambda a, b: {"k": "if", "c": ["id", "k_w"], "t": [db(L(a))], "e": [db(L(b))]}
+    cases.append({"rom": "low", "files": {}, "ir": [org, kw(1, 2), {"k": "macro", "n": "m_t", "ps": ["k_w"], "b": [kw(3, 4)]}, {"k": "call", "n": "m_t", "args": [L(1)]}, kw(5, 6),
+                                                   {"k": "for", "v": "k_w", "lo": L(1), "hi": L(3), "b": [kw(7, 8)]}, kw(9, 10), {"k": "call", "n": "m_t", "args": [L(0)]}, db(L(0xEE))]})
+    cases.append({"rom": "low", "files": {}, "ir": [org, {"k": "if", "c": ["id", "sc_c.k_w"], "t": [db(L(1))], "e": [db(L(2))]}, {"k": "scope", "n": "sc_c", "b": [{"k": "const", "n": "k_w", "e": L(1), "eager": True}, kw(3, 4)]},
+                                                   {"k": "if", "c": ["id", "sc_c.k_w"], "t": [db(L(5))], "e": [db(L(6))]}, kw(7, 8), db(L(0xEE))]})
+    cases.append({"rom": "low", "files": {}, "ir": [org, {"k": "for", "v": "i_0", "lo": L(0), "hi": L(3), "b": [
+        {"k": "if", "c": ["id", "i_0"], "t": [{"k": "const", "n": "k_seen", "e": L(1), "eager": True}], "e": None}, {"k": "if", "c": ["id", "k_seen"], "t": [db(L(0xA0), ["id", "i_0"])], "e": [db(L(0xB0), ["id", "i_0"])]}]}, db(L(0xEE))]})
+    cases.append({"rom": "low", "files": {}, "ir": [org, {"k": "macro", "n": "m_pick", "ps": ["p_v"], "b": [{"k": "if", "c": ["id", "p_v"], "t": [db(L(0xA1))], "e": [db(L(0xB1))]}, {"k": "data", "d": "dw", "es": [["id", "p_v"]]}]},
+                                                   {"k": "call", "n": "m_pick", "args": [["id", "lb_later"]]}, {"k": "call", "n": "m_pick", "args": [L(1)]}, {"k": "call", "n": "m_pick", "args": [["id", "lb_later"]]},
+                                                   {"k": "call", "n": "m_pick", "args": [L(0)]}, {"k": "label", "n": "lb_later"}, db(L(0xEE))]})
+    cases.append({"rom": "low", "files": {}, "ir": [org, {"k": "for", "v": "i_0", "lo": L(0), "hi": L(3), "b": [{"k": "for", "v": "i_1", "lo": L(0), "hi": L(2), "b": [
+        {"k": "if", "c": ["id", "k_late"], "t": [db(L(0xA2))], "e": [db(L(0xB2))]}]}, {"k": "if", "c": ["id", "i_0"], "t": [], "e": None}]}, db(L(0xEE))]})
     # condition values
     for c in (L(0), L(1), L(5), ["neg", L(1)], ["id", "k_undefined"], ["bin", "-", L(2), L(2)], ["bin", "&", L(6), L(3)]):
         for has_else in (False, True):
